@@ -12,6 +12,8 @@ import CV.Cpp
 import CV.Lit
 import CV.Calc
 import CV.CallGraph
+import CV.CSemParse
+import CV.GenFlat
 namespace CV
 
 structure LoadedProg where
@@ -265,6 +267,61 @@ def handle (st : DState) (line : String) : DState × String :=
        | some res => (st, "ok " ++ " ".intercalate ((res.map hexStr).toArray.qsort (· < ·)).toList)
        | none => (st, "diverge"))
     | _, _ => (st, "badreq")
+  -- csem <narrow|wide> <fuel> / name:bits=val ... / arr=v,v,v ... / fname <stmt tokens> / ... (main last)
+  | "csem" :: mode :: fuel :: rest =>
+    let segs := (rest.foldl (fun (acc : List (List String) × List String) t =>
+      if t == "/" then (acc.1 ++ [acc.2], []) else (acc.1, acc.2 ++ [t])) ([], []))
+    let segs := (segs.1 ++ [segs.2]).drop 1
+    let m : CSem.Mode := if mode == "wide" then .wide else .narrow
+    match fuel.toNat?, segs with
+    | some fuel, vs :: as :: fns =>
+      let vars := vs.filterMap fun t =>
+        match t.splitOn "=" with
+        | [nb, v] => (match nb.splitOn ":" with
+          | [n, b] => do let b ← b.toNat?; let v ← v.toInt?; some (n, b, v)
+          | _ => none)
+        | _ => none
+      let arrs := as.filterMap fun t =>
+        match t.splitOn "=" with
+        | [n, vs] => ((vs.splitOn ",").mapM String.toInt?).map fun l => (n, l)
+        | _ => none
+      let funs := fns.mapM fun ts =>
+        match ts with
+        | name :: body => (CSem.parseS (4 * body.length + 16) body).bind fun p => if p.2.isEmpty then some (name, p.1) else none
+        | [] => none
+      (match funs with
+       | none => (st, "badreq parse")
+       | some funs =>
+         let s0 : CSem.Store := { vars := vars, arrs := arrs }
+         match CSem.runMain m funs fuel s0 with
+         | .ok _ s1 =>
+           (st, "ok " ++ " ".intercalate (s1.vars.map fun p => p.1 ++ "=" ++ toString p.2.2) ++ " / " ++
+                " ".intercalate (s1.arrs.map fun p => p.1 ++ "=" ++ ",".intercalate (p.2.map toString)))
+         | .undef w => (st, "undef " ++ hexStr w)
+         | .fuel => (st, "fuel"))
+    | _, _ => (st, "badreq")
+  -- genflat <stmt>... : asg:v:atom | bin:v:op:atom:atom | oas:v:op:atom | inc:v | dec:v ; atom = c<n> | v<name>
+  | "genflat" :: sts =>
+    let atom : String → Option GenFlat.Atom := fun t =>
+      if t.startsWith "c" then ((t.drop 1).toString.toNat?).map fun n => GenFlat.Atom.const (BitVec.ofNat 8 n)
+      else if t.startsWith "v" then some (GenFlat.Atom.var (t.drop 1).toString) else none
+    let bop : String → Option GenFlat.BOp := fun t =>
+      if t == "add" then some .add else if t == "sub" then some .sub else if t == "and" then some .band
+      else if t == "or" then some .bor else if t == "xor" then some .bxor else none
+    let parsed := sts.mapM fun t =>
+      match t.splitOn ":" with
+      | ["asg", v, a] => (atom a).map fun a => GenFlat.FStmt.asg v a
+      | ["bin", v, o, a, b] => do let o ← bop o; let a ← atom a; let b ← atom b; some (GenFlat.FStmt.bin v o a b)
+      | ["oas", v, o, a] => do let o ← bop o; let a ← atom a; some (GenFlat.FStmt.opasg v o a)
+      | ["inc", v] => some (GenFlat.FStmt.inc v)
+      | ["dec", v] => some (GenFlat.FStmt.dec v)
+      | _ => none
+    match parsed with
+    | some ps =>
+      if ps.all GenFlat.InFragment then
+        (st, "ok " ++ " ".intercalate ((ps.flatMap GenFlat.genText).map fun p => p.1.name ++ ":" ++ hexStr p.2))
+      else (st, "outside")
+    | none => (st, "badreq")
   -- branch <line tokens>
   | "branch" :: toks =>
     match codeOfTokens toks with
